@@ -8,6 +8,7 @@ import (
 	"runtime"
 	"sort"
 	"strconv"
+	"strings"
 	"testing"
 	"testing/synctest"
 	"time"
@@ -168,6 +169,12 @@ func Main(t *testing.T, props map[string]Prop) {
 	from := envInt("SIM_FROM", 0)
 	count := envInt("SIM_COUNT", 100)
 	maxViol := envInt("SIM_MAX_VIOL", 2)
+	knownKeys, knownSeen, newViol := map[string]bool{}, map[string]bool{}, 0
+	for _, k := range strings.Split(os.Getenv("SIM_KNOWN_KEYS"), "|") {
+		if k != "" {
+			knownKeys[k] = true
+		}
+	}
 	budget := time.Duration(envInt("SIM_BUDGET_S", 0)) * time.Second
 	selftest := os.Getenv("SIM_TRACE_HASHES") != ""
 	announce := os.Getenv("SIM_ANNOUNCE") != ""
@@ -230,12 +237,28 @@ func Main(t *testing.T, props map[string]Prop) {
 		if only := envInt("SIM_ONLY_VIOL_AT", -1); only >= 0 && i != only {
 			continue // batch replay: earlier runs only provide the process state
 		}
-		if len(res.Failures) > 0 && len(sum.Violations) < maxViol {
-			pet()
-			v := minimise(t, p, name, res, i, pet)
-			sum.Violations = append(sum.Violations, v)
-			if len(sum.Violations) >= maxViol {
-				break
+		if len(res.Failures) > 0 {
+			_, fk := failKey(res.Failures)
+			if knownKeys[fk] {
+				// a listed known finding: one replayable instance is enough, and it does not use up
+				// the budget for new violations
+				if !knownSeen[fk] {
+					knownSeen[fk] = true
+					pet()
+					quickShrink = true
+					sum.Violations = append(sum.Violations, minimise(t, p, name, res, i, pet))
+					quickShrink = false
+				}
+				continue
+			}
+			if newViol < maxViol {
+				pet()
+				v := minimise(t, p, name, res, i, pet)
+				sum.Violations = append(sum.Violations, v)
+				newViol++
+				if newViol >= maxViol {
+					break
+				}
 			}
 		}
 	}
@@ -292,11 +315,17 @@ func renderLog(log []Event, max int) []string {
 
 // minimise shrinks the failing run's tape while the same (clause,key) keeps
 // failing, then re-runs the minimum with the log kept.
+// quickShrink: a known finding only needs a replayable instance, not the smallest one
+var quickShrink bool
+
 func minimise(t *testing.T, p Prop, name string, res Result, idx int, pet func()) Violation {
 	clause, key := failKey(res.Failures)
 	best := append([]uint32(nil), res.Tape...)
 	runs := 0
 	maxRuns := envInt("SIM_SHRINK_RUNS", 400)
+	if quickShrink {
+		maxRuns = 0 // a known finding only needs a replayable instance: the run as it was
+	}
 	if maxRuns == 0 {
 		c, k := failKey(res.Failures)
 		return Violation{Property: name, Clause: c, Key: k, Msg: res.Failures[0].Msg, Seed: res.Seed, RunIndex: idx, Mode: Mode(),
